@@ -1075,6 +1075,13 @@ class DagGen:
         return env
 
 
+def safe_tree(node):
+    try:
+        return node.asciitree()[:4000]
+    except Exception as e:
+        return 'asciitree raises %s' % type(e).__name__
+
+
 def bind_loops(node):
     """all values of `node` over all iterations of the loops whose index is free in it, as one flat array"""
     ev = lib()[0]
@@ -1136,7 +1143,7 @@ def stream_dag(c):
                         if out:
                             nviol['range'] += 1
                             c.failing_input('intbounds-unsound:' + cls, '%s node evaluates to %r outside its announced range (%s, %s)' % (cls, out[0], snum(lo), snum(hi)),
-                                            dict(stream='dag', node=repr(sub)[:600], cls=cls, announced=[snum(lo), snum(hi)], values=vals[:40], arguments={k: numpy.asarray(v).tolist() for k, v in env.items()}, in_loop=has_loopidx))
+                                            dict(stream='dag', node=repr(sub)[:600], tree=safe_tree(sub), cls=cls, announced=[snum(lo), snum(hi)], values=vals[:40], arguments={k: numpy.asarray(v).tolist() for k, v in env.items()}, in_loop=has_loopidx))
             # ---- announced shape / dtype / ndim / arguments of loop-free nodes
             if has_loopidx: continue
             try:
@@ -1146,9 +1153,11 @@ def stream_dag(c):
                 stats['eval-raise'] += 1; continue
             stats['metanodes'] += 1; c.count('dag-meta:' + cls)
             try:
-                shape = tuple(int(n.__index__()) if n.isconstant else int(evaluate(n, env)) for n in sub.shape)
+                # raw (unsimplified) evaluation of the announced shape: `__index__` would simplify, and simplification may raise where
+                # evaluation does not (InRange._intbounds on an index that is never taken)
+                shape = tuple(int(evaluate(n, env)) for n in sub.shape)
             except Exception as e:
-                shape = 'shape evaluation raises %s' % type(e).__name__
+                stats['shape-eval-raises:' + type(e).__name__] += 1; continue
             kind = {bool: 'b', int: 'i', float: 'f', complex: 'c'}[sub.dtype]
             what = None
             if val.ndim != sub.ndim: what = 'ndim %d announced, %d delivered' % (sub.ndim, val.ndim)
@@ -1156,7 +1165,7 @@ def stream_dag(c):
             elif val.dtype.kind != kind: what = 'dtype %s announced, %s delivered' % (kind, val.dtype.kind)
             if what:
                 nviol['meta'] += 1
-                c.failing_input('metadata-wrong:' + cls, '%s: %s' % (cls, what), dict(stream='dag', node=repr(sub)[:600], cls=cls, what=what, arguments={k: numpy.asarray(v).tolist() for k, v in env.items()}))
+                c.failing_input('metadata-wrong:' + cls, '%s: %s' % (cls, what), dict(stream='dag', node=repr(sub)[:600], tree=safe_tree(sub), cls=cls, what=what, arguments={k: numpy.asarray(v).tolist() for k, v in env.items()}))
                 continue
             # result independent of arguments that are not announced
             announced = {a.name for a in sub.arguments if isinstance(a, ev.Argument)}
